@@ -1,4 +1,4 @@
-import PdtVerif.Lemmas.CheckpointLr
+import PdtVerif.Lemmas.CheckpointRounding
 /-!
 # C16 — a crash during an epoch update never loses the last or best checkpoint
 
@@ -6,8 +6,8 @@ Model: `Model/Checkpoint.lean` (the mutating calls of `update_for_epoch` in the 
 makes them — every `f.write` of a history line is a call of its own; `Quirks.fixed` = the tree with
 `fixes/C16-*.diff` applied, `Quirks.pinned` = the pinned tree). Spec: `Spec/Recoverable.lean` (`Rec`,
 `RecAt`, `ExactLB`, `AllLoadable`, `RecAll`, `Inj`, `SafeAt`, `SafeFmt`, `Sep`). Proofs:
-`Lemmas/Checkpoint.lean`, `Lemmas/CheckpointFormats.lean`, `Lemmas/CheckpointLr.lean` (this file states the property theorems and
-instantiates them).
+`Lemmas/Checkpoint.lean`, `Lemmas/CheckpointFormats.lean`, `Lemmas/CheckpointLr.lean`,
+`Lemmas/CheckpointRounding.lean` (this file states the property theorems and instantiates them).
 
 `SafeAt P vals k`: the update of epoch `k+1` is checkpoint-first (does not refuse, `save_info_first`
 is `False`) — a condition on the two file-name formats and the metric history. `SafeFmt P vals`: all
@@ -18,7 +18,10 @@ optimizer's learning rate INCLUDED (`Opt.lr`): `tr.fit` = any deterministic trai
 learning rate `update_for_epoch(e)` writes into the optimizer before it saves (`none`: no reduction);
 `U tr (e+1) = tr.step (e+1) (U tr e)`, `lrAt tr e = (U tr e).2.lr`. "Exactly the parameters saved for
 epoch e" therefore covers the hyper-parameter the controller itself rewrites (last section).
-`vals`: the metric column that decides "best" (`deciding bestIsTrain ms`).
+`vals`: the metric column that decides "best" (`deciding bestIsTrain ms`) — the values `get_best_epoch`
+COMPARES. Section "metrics as recorded": the raw metrics handed to `update_for_epoch` are `raw`, the
+history file records `fileVals R raw`, a controller started with `k0` recorded epochs compares
+`memVals R raw k0`; `best` of the spec is the first minimum of the recorded column.
 -/
 namespace PdtVerif.Checkpoint
 
@@ -399,6 +402,87 @@ theorem C16_lr_order_counterexample :
   refine ⟨_, rfl, ?_⟩
   decide
 
+/-! ## metrics as recorded: `best` is the first minimum of the history file's column
+
+`R : Rounding` = (what the history file's format makes of a metric, what `get_best_epoch` makes of a
+cached value before comparing). `R.Consistent`: the same idempotent function at both places (the code:
+`float("{:.4e}".format(x))`, 5 significant digits). The spec (`Rec`, `ExactLB`) is stated on the history
+AS RECORDED, `fileVals R raw` — what every controller started later sees; the update is the one planned
+by a controller that was started when `k0` epochs were recorded, whatever `k0` (it knows the earlier
+epochs as recorded and its own as raw floats: `memVals R raw k0`). -/
+
+/-- **Whenever it was started, a controller with a consistent rounding compares the recorded column**
+— raw metrics of any magnitude, on or off the grid of the recorded digits. -/
+theorem C16_rounding_consistent {R : Rounding} (hc : R.Consistent) (raw : List (Option Int)) (k0 : Nat) :
+    memVals R raw k0 = fileVals R raw ∧ recVals R raw = fileVals R raw :=
+  ⟨memVals_eq_fileVals hc raw k0, recVals_eq_fileVals hc raw⟩
+
+/-- `C16_rec_step` for any rounding applied consistently in memory and on file: every single mutating
+call of the update planned by a controller started at `k0` keeps the disk recoverable, where "best
+epoch" is the first minimum of the RECORDED values. -/
+theorem C16_rec_step_rounded {P : Params} {R : Rounding} (hc : R.Consistent) (raw : List (Option Int))
+    (k0 : Nat) (tr : Train) (d : Disk)
+    (hrec : Rec P (fileVals R raw) tr d) (k : Nat) (hk : recorded d = some k) (hlt : k < raw.length)
+    (hs : SafeAt P (fileVals R raw) k) (hsep : Sep P (fileVals R raw) k)
+    (main : List FsOp) (cl : List Path)
+    (hplan : planUpdate Quirks.fixed P (memVals R raw k0) k d (tr.step (k + 1) (U tr k)) = .ok (main, cl))
+    (cl' : List Path) (hcl : ∀ p ∈ cl', p ∈ cl) (i : Nat) :
+    Rec P (fileVals R raw) tr (exec d ((opsOf main cl').take i)) := by
+  rw [memVals_eq_fileVals hc] at hplan
+  exact c16_rec_step _ tr d hrec k hk (by rw [fileVals_length]; exact hlt) hs hsep main cl hplan cl' hcl i
+
+/-- `C16_exact_nocrash` likewise: the uninterrupted keep-last-and-best run (its controller started on
+nothing, so it compares raw values, rounded) holds after every completed update exactly the files of
+the last and of the best RECORDED epoch. -/
+theorem C16_exact_nocrash_rounded {P : Params} (hi : Inj P) (hkeep : P.keepLB = true) {R : Rounding}
+    (hc : R.Consistent) (raw : List (Option Int)) (tr : Train) (j : Nat) (hj : j ≤ raw.length) :
+    ∃ d, runLoop Quirks.fixed P (memVals R raw 0) tr j 0 (U tr 0) Disk.blank = (j, U tr j, d) ∧
+      ExactLB P (fileVals R raw) d j ∧ RecAt P (fileVals R raw) tr d j := by
+  rw [memVals_eq_fileVals hc]
+  exact c16_exact_nocrash hi hkeep _ tr j (by rw [fileVals_length]; exact hj)
+
+/-- `C16_resume` likewise, for the sessions of the real controller (`faultyR`: every session fixes
+the list it compares when its controller is constructed): after any crash schedule all epochs are
+recorded, last and best-as-recorded loadable with their states, and the history file is the
+uninterrupted run's. -/
+theorem C16_resume_rounded {P : Params} {R : Rounding} (hc : R.Consistent) (raw : List (Option Int))
+    (hs : SafeFmt P (fileVals R raw)) (tr : Train) (d : Disk) (hrec : Rec P (fileVals R raw) tr d)
+    (sched : List (Nat × Nat × Bool)) :
+    RecAt P (fileVals R raw) tr (faultyR Quirks.fixed P R raw tr d sched) raw.length ∧
+      (0 < raw.length → (faultyR Quirks.fixed P R raw tr Disk.blank sched).csv =
+        (runToEndR Quirks.fixed P R raw tr Disk.blank).csv) := by
+  rw [faultyR_eq hc, faultyR_eq hc, runToEndR_eq hc]
+  refine ⟨?_, fun hn => ?_⟩
+  · have := c16_resume (fileVals R raw) hs tr d hrec sched
+    rwa [fileVals_length] at this
+  · exact c16_resume_history (fileVals R raw) hs tr (by rw [fileVals_length]; exact hn) sched
+
+/-- metrics as 6-digit integers (unit 1e-4 of a metric between 10 and 100): five significant digits -/
+def sig5 (x : Int) : Int := (x + 5) / 10 * 10
+
+example : sig5 123461 = 123460 ∧ sig5 123456 = 123460 ∧ sig5 (sig5 123456) = sig5 123456 := by decide
+
+/-- `sig5` is idempotent, so used at both places it is a consistent rounding. -/
+theorem sig5_idem (x : Int) : sig5 (sig5 x) = sig5 x := by
+  unfold sig5; omega
+
+def exRaw : List (Option Int) := [some 123461, some 123456, some 130000]
+
+/-- the hypotheses of the three theorems hold on a history whose second epoch is lower than the first
+only beyond the recorded digits: the recorded best is epoch 1 at every length -/
+example : fileVals (Rounding.both sig5) exRaw = [some 123460, some 123460, some 130000] ∧
+    bestOf ((fileVals (Rounding.both sig5) exRaw).take 2) = 1 ∧ bestOf (exRaw.take 2) = 2 := by decide
+
+example := C16_rec_step_rounded (P := exP) (Rounding.both_consistent sig5_idem) exRaw 0 exTr Disk.blank
+  (Rec_blank exP _ exTr).rec 0 rfl (by decide) (exP_inj.safeAt _ 0) (exP_inj.sep _ 0)
+  (saveOps exP Disk.blank 1 (1, ⟨1, 0⟩) ++ histOps Quirks.fixed Disk.blank 1) [] rfl [] (fun _ h => h) 7
+
+example : exactLBOk exP (fileVals (Rounding.both sig5) exRaw)
+    (runLoop Quirks.fixed exP (memVals (Rounding.both sig5) exRaw 0) exTr 2 0 St.init Disk.blank).2.2 2 = true ∧
+    recOk exP (fileVals (Rounding.both sig5) exRaw) exTr
+      (faultyR Quirks.fixed exP (Rounding.both sig5) exRaw exTr Disk.blank [(1, 7, false), (0, 11, false)]) = true := by
+  decide
+
 /-! ## what is false of the code -/
 
 /-- **Exactness after a crash is false** (known finding `C16.leak.tmp_or_superseded_after_crash`).
@@ -508,6 +592,34 @@ theorem C16_best_is_train_counterexample :
      bestOf (deciding false exMs) = 1 ∧ loadState exP d 1 = none ∧
        loadState exP d (bestOf (deciding true exMs)) = some (U exTr 2)) := by
   decide
+
+/-- **The consistency of the two roundings is needed** (seed C16-d1: `get_best_epoch` rounding to five
+DECIMAL PLACES, the file recording five SIGNIFICANT DIGITS). (1) memory finer than the file — metrics
+≥ 10: 12.3461 then 12.3456, both recorded as 1.2346e+01. The running controller sees a new best at
+epoch 2 and deletes epoch 1; every controller started later reads a tie, calls epoch 1 the best and
+cannot load it: the disk after the COMPLETED, crash-free update is not recoverable and the directory
+is not the one of the last and best recorded epochs. (2) memory coarser than the file — metrics below
+1e-5: 3e-6, 2e-6, 5e-6 are all recorded, all 0 to five decimals: the running controller keeps epoch 1
+as best and deletes epoch 2, the lowest recorded one. With one rounding at both places both runs are
+fine. -/
+theorem C16_rounding_mismatch_counterexample :
+    (¬ (⟨sig5, id⟩ : Rounding).Consistent ∧
+      (let R : Rounding := ⟨sig5, id⟩
+       let d := (runLoop Quirks.fixed exP (memVals R exRaw 0) exTr 2 0 St.init Disk.blank).2.2
+       recorded d = some 2 ∧ bestOf ((memVals R exRaw 0).take 2) = 2 ∧ bestOf ((fileVals R exRaw).take 2) = 1 ∧
+         bestOf ((recVals R exRaw).take 2) = 1 ∧ loadState exP d 1 = none ∧
+         recOk exP (fileVals R exRaw) exTr d = false ∧ exactLBOk exP (fileVals R exRaw) d 2 = false)) ∧
+    (¬ (⟨id, fun x => x / 10 * 10⟩ : Rounding).Consistent ∧
+      (let R : Rounding := ⟨id, fun x => x / 10 * 10⟩
+       let raw : List (Option Int) := [some 3, some 2, some 5]
+       let d := (runLoop Quirks.fixed exP (memVals R raw 0) exTr 3 0 St.init Disk.blank).2.2
+       recorded d = some 3 ∧ bestOf (memVals R raw 0) = 1 ∧ bestOf (fileVals R raw) = 2 ∧
+         loadState exP d 2 = none ∧ recOk exP (fileVals R raw) exTr d = false)) ∧
+    (let R := Rounding.both sig5
+     let d := (runLoop Quirks.fixed exP (memVals R exRaw 0) exTr 2 0 St.init Disk.blank).2.2
+     recOk exP (fileVals R exRaw) exTr d = true ∧ exactLBOk exP (fileVals R exRaw) d 2 = true) := by
+  refine ⟨⟨fun h => absurd (h.same 123461) (by decide), by decide⟩,
+    ⟨fun h => absurd (h.same 3) (by decide), by decide⟩, by decide⟩
 
 /-! ## the two defects of the pinned tree that `fixes/C16-*.diff` repair -/
 
